@@ -72,3 +72,145 @@ fn c19_text_deveui() { newtype_text!(crate::parser::DevEui, 8) }
 #[kani::proof]
 #[kani::unwind(36)]
 fn c19_text_joineui() { newtype_text!(crate::parser::JoinEui, 8) }
+
+/// parse contract on an arbitrary ASCII text of exactly 2N characters: all hex digits => Ok(value with those digits, MSB first);
+/// the call returns (never panics) for every text.  (`from_str_radix` also takes a leading '+': not a round-trip matter.)
+macro_rules! newtype_parse_total {
+    ($t:ty, $n:literal) => {{
+        tape::init();
+        let txt: [u8; 2 * $n] = tape::arr();
+        let mut k = 0; let mut all_hex = true; let mut ascii = true;
+        let mut msb = [0u8; $n];
+        while k < 2 * $n {
+            if txt[k] >= 0x80 { ascii = false; }
+            match hexval(txt[k]) { Some(d) => { msb[k / 2] = if k % 2 == 0 { d << 4 } else { msb[k / 2] | d }; } None => { all_hex = false; } }
+            k += 1;
+        }
+        kani::assume(ascii);
+        let s = unsafe { core::str::from_utf8_unchecked(&txt) };
+        let r = <$t>::from_str(s);
+        let mut wire = msb; wire.reverse();
+        if all_hex { assert!(r == Ok(<$t>::from_wire_bytes(wire)), "C19 a text of 2N hex digits parses to the value with those digits, MSB first"); }
+        kani::cover!(all_hex && r.is_ok(), "verif-reached: accepted");
+        kani::cover!(!all_hex && r.is_err(), "verif-reached: refused");
+    }};
+}
+// @verif props=C19,C03 obligation=parser::DevAddr.from_str.contract label=proved-complete tier=quick bound="every ASCII text of exactly 8 characters (other lengths: see .length)"
+#[kani::proof]
+#[kani::unwind(36)]
+fn c19_text_devaddr_parse() { newtype_parse_total!(crate::parser::DevAddr, 4) }
+// @verif props=C19,C03 obligation=parser::DevEui.from_str.contract label=proved-complete tier=quick bound="every ASCII text of exactly 16 characters"
+#[kani::proof]
+#[kani::unwind(36)]
+fn c19_text_deveui_parse() { newtype_parse_total!(crate::parser::DevEui, 8) }
+// @verif props=C19,C03 obligation=wire_value_newtype.from_str.length label=proved-complete tier=quick bound="ASCII texts of 0..=17 characters"
+#[kani::proof]
+#[kani::unwind(36)]
+fn c19_text_newtype_wrong_length() {
+    tape::init();
+    let txt: [u8; 17] = tape::arr();
+    let n = tape::below(18);
+    let mut k = 0; while k < 17 { kani::assume(txt[k] < 0x80); k += 1; }
+    let s = unsafe { core::str::from_utf8_unchecked(&txt[..n]) };
+    if n != 8 { assert!(crate::parser::DevAddr::from_str(s).is_err(), "C19 DevAddr text of another length is refused"); }
+    if n != 16 { assert!(crate::parser::DevEui::from_str(s).is_err() && crate::parser::JoinEui::from_str(s).is_err(), "C19 EUI text of another length is refused"); }
+    if n != 4 { assert!(crate::parser::DevNonce::from_str(s).is_err(), "C19 DevNonce text of another length is refused"); }
+    kani::cover!(n == 3, "verif-reached: odd length");
+}
+
+// ------------------------------------------------------------------------------------------------ string.rs: keys and EUIs (hex crate)
+macro_rules! key_text {
+    ($t:ty, $n:literal, $lsb_stored:expr) => {{
+        tape::init();
+        let raw: [u8; $n] = tape::arr();
+        let upper: [u8; 32] = tape::arr();
+        let v = <$t>::from(raw);
+        let mut msb = raw; if $lsb_stored { msb.reverse(); }
+        let mut w = Sink::new();
+        let r = write!(w, "{}", v);
+        assert!(r.is_ok() && !w.overflow && w.n == 2 * $n, "C19 the text form is exactly 2N characters");
+        let mut k = 0;
+        while k < 2 * $n { assert!(w.b[k] == spec_digit(&msb, k), "C19 text form = MSB-first lower-case hex"); k += 1; }
+        let mut txt = [0u8; 2 * $n];
+        let mut k = 0;
+        while k < 2 * $n { let c = w.b[k]; txt[k] = if upper[k] & 1 == 1 && c >= b'a' { c - 32 } else { c }; k += 1; }
+        let s = unsafe { core::str::from_utf8_unchecked(&txt) };
+        let back = <$t>::from_str(s);
+        assert!(back == Ok(v), "C19 parse(print(v)) == v, for every value, in either letter case");
+        kani::cover!(back.is_ok(), "verif-reached: round trip");
+    }};
+}
+macro_rules! key_parse_total {
+    ($t:ty, $n:literal, $lsb_stored:expr) => {{
+        tape::init();
+        let txt: [u8; 2 * $n + 1] = tape::arr();
+        let len = 2 * $n - 1 + tape::below(3);
+        let mut k = 0; let mut all_hex = true;
+        let mut msb = [0u8; $n];
+        while k < 2 * $n + 1 {
+            kani::assume(txt[k] < 0x80);
+            if k < len {
+                match hexval(txt[k]) { Some(d) => { if k < 2 * $n { msb[k / 2] = if k % 2 == 0 { d << 4 } else { msb[k / 2] | d }; } } None => { all_hex = false; } }
+            }
+            k += 1;
+        }
+        let s = unsafe { core::str::from_utf8_unchecked(&txt[..len]) };
+        let r = <$t>::from_str(s);
+        let mut stored = msb; if $lsb_stored { stored.reverse(); }
+        assert!(r.is_ok() == (all_hex && len == 2 * $n), "C19 accepted exactly when the text is 2N hex digits");
+        if let Ok(v) = r { assert!(v == <$t>::from(stored), "C19 value = the digits, MSB first"); }
+        kani::cover!(r.is_ok(), "verif-reached: accepted");
+        kani::cover!(len == 2 * $n && r.is_err(), "verif-reached: refused for a non-hex character");
+        kani::cover!(len != 2 * $n, "verif-reached: refused for its length");
+    }};
+}
+// @verif props=C19 obligation=keys::AppKey.text_roundtrip label=proved-complete tier=quick bound="every 128-bit value (macro fixed_len_struct_impl_to_string_msb!, instantiated for AppKey)"
+#[kani::proof]
+#[kani::unwind(36)]
+fn c19_text_appkey() { key_text!(crate::keys::AppKey, 16, false) }
+// @verif props=C19 obligation=keys::DevEui.text_roundtrip label=proved-complete tier=quick bound="every 64-bit value (macro fixed_len_struct_impl_string_lsb!, instantiated for keys::DevEui)"
+#[kani::proof]
+#[kani::unwind(36)]
+fn c19_text_keys_deveui() { key_text!(crate::keys::DevEui, 8, true) }
+// @verif props=C19 obligation=keys::AppEui.text_roundtrip label=proved-complete tier=quick bound="every 64-bit value"
+#[kani::proof]
+#[kani::unwind(36)]
+fn c19_text_keys_appeui() { key_text!(crate::keys::AppEui, 8, true) }
+// @verif props=C19,C03 obligation=keys::AppSKey.from_str.contract label=proved-complete tier=quick bound="every ASCII text of 31..=33 characters"
+#[kani::proof]
+#[kani::unwind(36)]
+fn c19_text_appskey_parse() { key_parse_total!(crate::keys::AppSKey, 16, false) }
+// @verif props=C19,C03 obligation=keys::DevEui.from_str.contract label=proved-complete tier=quick bound="every ASCII text of 15..=17 characters"
+#[kani::proof]
+#[kani::unwind(36)]
+fn c19_text_keys_deveui_parse() { key_parse_total!(crate::keys::DevEui, 8, true) }
+
+// ---- the remaining instantiations of the three macros (same macro text, different types)
+// @verif props=C19 obligation=parser::McAddr.text_roundtrip label=proved-complete tier=quick bound="every 32-bit value"
+#[kani::proof]
+#[kani::unwind(36)]
+fn c19_text_mcaddr() { newtype_text!(crate::parser::McAddr, 4) }
+// @verif props=C19 obligation=parser::JoinNonce.text_roundtrip label=proved-complete tier=quick bound="every 24-bit value"
+#[kani::proof]
+#[kani::unwind(36)]
+fn c19_text_joinnonce() { newtype_text!(crate::parser::JoinNonce, 3) }
+// @verif props=C19 obligation=parser::NetId.text_roundtrip label=proved-complete tier=quick bound="every 24-bit value"
+#[kani::proof]
+#[kani::unwind(36)]
+fn c19_text_netid() { newtype_text!(crate::parser::NetId, 3) }
+// @verif props=C19 obligation=keys::NwkSKey.text_roundtrip label=proved-complete tier=quick bound="every 128-bit value"
+#[kani::proof]
+#[kani::unwind(36)]
+fn c19_text_nwkskey() { key_text!(crate::keys::NwkSKey, 16, false) }
+// @verif props=C19 obligation=keys::AppSKey.text_roundtrip label=proved-complete tier=quick bound="every 128-bit value"
+#[kani::proof]
+#[kani::unwind(36)]
+fn c19_text_appskey() { key_text!(crate::keys::AppSKey, 16, false) }
+// @verif props=C19 obligation=keys::McKey+McRootKey.text_roundtrip label=proved-complete tier=thorough bound="every 128-bit value"
+#[kani::proof]
+#[kani::unwind(36)]
+fn c19_text_mckeys() { key_text!(crate::keys::McKey, 16, false); key_text!(crate::keys::McRootKey, 16, false) }
+// @verif props=C19 obligation=keys::McKEKey+McNetSKey+McAppSKey+GenAppKey.text_roundtrip label=proved-complete tier=thorough bound="every 128-bit value"
+#[kani::proof]
+#[kani::unwind(36)]
+fn c19_text_mckeys2() { key_text!(crate::keys::McKEKey, 16, false); key_text!(crate::keys::McNetSKey, 16, false); key_text!(crate::keys::McAppSKey, 16, false); key_text!(crate::keys::GenAppKey, 16, false) }
